@@ -293,6 +293,16 @@ def run_real(case):
         except Exception as e:
             return False, f"{type(e).__name__}: {e}", type(e).__name__
         return (same(val, ref), "wrong value", "wrong-value")
+    if kind == "tensordot-highrank":
+        xa = np.array(case["a"], dtype=np.int64).reshape(case["shape_a"])
+        xb = np.array(case["b"], dtype=np.int64).reshape(case["shape_b"])
+        axa, axb = case["axes"]
+        ref = np.tensordot(xa, xb, axes=(axa, axb))
+        try:
+            val = cmod.tensordot(xa, xb, (axa, axb))
+        except Exception as e:
+            return False, f"{type(e).__name__}: {e}", type(e).__name__
+        return (val.shape == ref.shape and bool(np.array_equal(val, ref)), "wrong value", "wrong-value")
     raise ValueError(kind)
 
 
@@ -733,6 +743,37 @@ def replay_corpus(ctx):
             ctx.violation(sig, case, f"corpus case {os.path.basename(f)} fails again: {detail}")
 
 
+def run_tensordot_highrank(ctx, st, n):
+    """operands of rank 20-32 (almost all dimensions 1): the internal equation of the matmul plan then needs more
+    than the 52 letters. Oracle only (numpy.tensordot)."""
+    for _ in range(n):
+        if ctx.time_left() < 20:
+            return
+        ra, rb = ctx.rng.randint(20, 32), ctx.rng.randint(20, 32)
+        k = ctx.rng.choice([0, 1, 2, 3, 5])
+        axa = ctx.rng.sample(range(ra), k)
+        axb = ctx.rng.sample(range(rb), k)
+        sa = [1 if ctx.rng.random() < 0.9 else 2 for _ in range(ra)]
+        sb = [1 if ctx.rng.random() < 0.9 else 2 for _ in range(rb)]
+        for i, j in zip(axa, axb):
+            sb[j] = sa[i] = ctx.rng.choice([1, 2, 3])
+        xa, xb = rand_array(st["rs"], tuple(sa)), rand_array(st["rs"], tuple(sb))
+        case = {"kind": "tensordot-highrank", "shape_a": sa, "shape_b": sb, "axes": [axa, axb]}
+        ctx.case(case, nontrivial=True, sample=False)
+        ctx.count("tensordot_highrank:ranks>52" if ra + rb > 52 else "tensordot_highrank:ranks<=52")
+        ref = np.tensordot(xa, xb, axes=(axa, axb))
+        try:
+            got = cmod.tensordot(xa, xb, (axa, axb))
+            ok = got.shape == ref.shape and bool(np.array_equal(got, ref))
+            detail = "wrong value/shape"
+        except Exception as e:  # noqa: BLE001
+            ok, detail = False, "%s: %s" % (type(e).__name__, str(e)[:120])
+        if not ok:
+            ctx.violation({"site": "contract.tensordot", "form": "high-rank", "class": detail.split(":")[0]},
+                          dict(case, a=flat(xa), b=flat(xb)),
+                          f"contract.tensordot of ranks {ra},{rb} axes=({axa},{axb}): {detail}")
+
+
 def run(ctx, drv):
     st = {"rs": np.random.default_rng(ctx.rng.randrange(1 << 32)), "variant": shortcut_variant(),
           "admitted": 0, "truncated": False}
@@ -741,6 +782,7 @@ def run(ctx, drv):
     run_sanitize(ctx, drv, st)
     run_string_forms(ctx, st)
     run_broadcast(ctx, st)
+    run_tensordot_highrank(ctx, st, 60 if ctx.tier == "quick" else 1500)
     if ctx.tier == "quick":
         run_single(ctx, drv, st, K=3, L=4, complete=True)
         run_tensordot(ctx, drv, st, rmax=2, complete=True)
